@@ -428,7 +428,7 @@ def _common_prefix(a, b):
     return n
 
 
-def build_input(pid, h, its, orders):
+def build_input(pid, h, its, orders, jperm=None):
     toks = ["simh", pid]
     for d, dv in enumerate(h["daemons"]):
         groups, _ = iface_groups(dv["ifaces"])
@@ -444,7 +444,7 @@ def build_input(pid, h, its, orders):
             mask = ipaddress.ip_address(x.get("mask") or ("255.255.255.0" if ip.version == 4 else "ffff:ffff:ffff:ffff::"))
             rows.append("%d,%s,%s,%s" % (x["index"], hx(x["name"].encode()), hx(ip.packed), hx(mask.packed)))
         toks.append("O:%d:%s" % (d, ";".join(rows) if rows else "n"))
-    for rec, calls, dgs in replay_steps(h, its):
+    for k_it, (rec, calls, dgs) in enumerate(replay_steps(h, its)):
         ctoks = []
         if calls:
             results = rec.get("calls", [])
@@ -452,6 +452,8 @@ def build_input(pid, h, its, orders):
                 ctoks.append(call_tok(c, results[k] if k < len(results) else None))
         gtoks = [x for x in (dgram_tok(g) for g in dgs) if x is not None]
         jit = rec.get("jitter", [])
+        if jperm and k_it in jperm:
+            jit = jperm[k_it]
         wake = rec.get("wake")
         toks.append("I:%d:%d:%s:%s:%s:%s" % (
             rec["d"], rec["now"], "n" if wake is None else str(wake),
@@ -464,20 +466,33 @@ def _wake_consistent(line):
     """the requested wake-ups of the trace never lie after the model's due work (for this choice of
     interface order); used only to choose between orders that reproduce the observation equally"""
     out = _model_eval(line.replace("simh", "simdue", 1))
+    exits = ":s:" in line or ";s:" in line or ":s;" in line or ";s;" in line     # a shutdown call: no wake-up after it
     for part in out.split(" | "):
         f = dict(x.split("=") for x in part.split(" ")[1:] if "=" in x)
-        if f.get("due", "-") != "-" and (f.get("wake", "-") == "-" or int(f["wake"]) > int(f["due"])):
+        if f.get("due", "-") == "-":
+            continue
+        if f.get("wake", "-") == "-":
+            if exits:
+                continue
+            return False
+        if int(f["wake"]) > int(f["due"]):
             return False
     return True
 
 
 def model_input(pid, case_line, raw):
+    """The model's input for one run: the history, the environment values the trace reports
+    (iteration times, granted wake-ups, jitter values, OS table) and two environment choices the
+    trace does not report and that are settled with the help of the model: the iteration order of a
+    multi-interface daemon's interface map, and - when several jitter values are drawn in one
+    iteration - which consumer got which value (hash-set / timer order of equal-time work)."""
     import itertools
     h = history_of(case_line)
     its, _ = iterations(raw)
     orders = [infer_if_order(h, its, d) for d in range(len(h["daemons"]))]
     first = build_input(pid, h, its, orders)
-    if all(len(o) < 2 for o in orders):
+    multi_j = [k for k, (rec, _c, _g) in enumerate(replay_steps(h, its)) if 2 <= len(rec.get("jitter", [])) <= 4]
+    if all(len(o) < 2 for o in orders) and not multi_j:
         return first
     obs = project(case_line, raw)
     try:
@@ -495,9 +510,19 @@ def model_input(pid, case_line, raw):
                     return line
             n = _common_prefix(out, obs)
             if best is None or n > best[0]:
-                best = (n, line)
+                best = (n, line, cand)
         if matching:
             return matching[0]
+        # which of several jitter values of one iteration went to which consumer
+        recs = list(replay_steps(h, its))
+        for k in multi_j[:8]:
+            jit = recs[k][0]["jitter"]
+            for perm in itertools.permutations(jit):
+                if list(perm) == list(jit):
+                    continue
+                line = build_input(pid, h, its, best[2], {k: list(perm)})
+                if _model_eval(line) == obs:
+                    return line
         return best[1]
     except Exception:
         return first
